@@ -2,7 +2,9 @@
    Statements only; proofs live in Proofs/ (hand models) and Gen/*Proof.v (generated proof
    scripts for the regenerated crash models).  Synced to /repo 0a4bdcb. *)
 From Coq Require Import ZArith List Bool.
-From TV Require Import Base.Prelude Base.C08_Lib Model.C08_Known Gen.ShChecks Proofs.C08_HelloSh
+From TV Require Import Base.Prelude Base.C08_Lib Model.C08_Known Gen.HrrShChecks Proofs.C08_HelloHrrSh
+                       Gen.HrrChChecks Proofs.C08_HelloHrr
+                       Gen.ShChecks Proofs.C08_HelloSh
                        Gen.ChChecks Proofs.C08_Hello
                        Model.C08_Funnel Proofs.C08_Funnel Model.C08_Work Proofs.C08_Work.
 Import ListNotations.
@@ -54,6 +56,64 @@ Example server_hello_checks_examples :
                                     {| ShChecks.RecordSizeLimitExtension_record_size_limit := None |}]))
                     sh_ch0 sh_st0 None true keep = C08_Lib.Alert 50.
 Proof. exact (conj sh_example_ok sh_example_alert). Qed.
+
+(* 1c. Crash analysis of the server's validation of the SECOND ClientHello after a
+   HelloRetryRequest (nested region of _serverGetClientHello: the key_share checks; the second
+   hello does not pass through the checks of part 1 again).
+   FULL statement (false of the faithful model, see the refutation):
+       forall ch g, ncrash (HrrChChecks ch g)
+   PROVED PART: for every abstract second ClientHello and every selected group the region ends in
+   OK, a fatal alert or TLSInternalError, or crashes at the ONE listed site len:ext.client_shares#1
+   (`if not ext:` tests presence only; a key_share extension with an empty body has
+   client_shares = None).  In particular a present-but-EMPTY share vector is answered with
+   illegal_parameter and `ext.client_shares[0]` is never reached with an empty list.
+   MISSING for the full statement: that site is a genuine defect on /repo 8fbaa01 (proposed fix
+   C08-17); the witness is replayed on the live server (two-step exchange) on every run. *)
+Theorem hrr_second_hello_checks_crash_free_partial :
+  forall (ch : HrrChChecks.ClientHello_r) (selected_group : Z),
+    C08_Lib.crash_in hrr_ch_known_sites (HrrChChecks.HrrChChecks ch selected_group).
+Proof. exact hrr_crash_sites_l. Qed.
+
+Theorem hrr_second_hello_checks_crash_free_refuted :
+  exists ch g, C08_Lib.is_crash (HrrChChecks.HrrChChecks ch g) = true.
+Proof. exact hrr_refuted_l. Qed.
+
+Theorem hrr_second_hello_known_sites_reachable :
+  forall s, In s hrr_ch_known_sites -> exists ch g k, HrrChChecks.HrrChChecks ch g = C08_Lib.Crash k s.
+Proof. exact hrr_sites_reachable_l. Qed.
+
+Example hrr_second_hello_examples :
+  HrrChChecks.HrrChChecks (hrr_mk []) 23 = C08_Lib.Alert 109 /\
+  HrrChChecks.HrrChChecks (hrr_mk [hrr_ks (Some [])]) 23 = C08_Lib.Alert 47 /\
+  HrrChChecks.HrrChChecks (hrr_mk [hrr_ks (Some [hrr_share 23; hrr_share 29])]) 23 = C08_Lib.Alert 47 /\
+  HrrChChecks.HrrChChecks (hrr_mk [hrr_ks (Some [hrr_share 29])]) 23 = C08_Lib.Alert 47 /\
+  HrrChChecks.HrrChChecks (hrr_mk [hrr_ks (Some [hrr_share 23])]) 23 = C08_Lib.OK tt.
+Proof. exact hrr_examples. Qed.
+
+(* 1d. Crash analysis of the client's handling of a HelloRetryRequest (nested region of
+   _clientGetServerHello: unexpected-extension test, cookie, selected group against the own
+   supported_groups / key shares, "HRR changes nothing", session_id echo).  For EVERY abstract
+   HelloRetryRequest (every extension absent / present / with any fields) and every result of the
+   own key-share generator: no Crash -- under the HYPOTHESIS hrr_own_ok about the client's OWN
+   ClientHello (it carries supported_groups and key_share, each with a list: invariant of hellos
+   built for TLS 1.3 since /repo 40ad8d2, checked by the tie on every own hello observed) and the
+   enclosing test (the HRR has an extension list: its supported_versions was just found).  The
+   second ServerHello that follows is covered by server_hello_checks_crash_free (hrr := Some _). *)
+Theorem hrr_handling_crash_free :
+  forall (ch : HrrShChecks.ClientHello_r) (hrr : HrrShChecks.ServerHello_r)
+         (gen_key_share : Z -> C08_Lib.ver -> HrrShChecks.KeyShareEntry_r),
+    HrrShChecks.hrr_own_ok ch hrr ->
+    C08_Lib.ncrash (HrrShChecks.HrrShChecks ch hrr gen_key_share).
+Proof. exact hrr_sh_crash_free_l. Qed.
+
+Example hrr_handling_hypothesis_satisfiable : HrrShChecks.hrr_own_ok hs_ch (hs_hrr [7] [hs_sv; hs_sel 23]).
+Proof. exact hrr_own_ok_example. Qed.
+
+Example hrr_handling_examples :
+  HrrShChecks.HrrShChecks hs_ch (hs_hrr [7] [hs_sv; hs_sel 23]) hs_gen = C08_Lib.OK tt /\
+  HrrShChecks.HrrShChecks hs_ch (hs_hrr [7] [hs_sv; hs_sel 24]) hs_gen = C08_Lib.Alert 47 /\
+  HrrShChecks.HrrShChecks hs_ch (hs_hrr [7] [hs_sv]) hs_gen = C08_Lib.Alert 47.
+Proof. destruct hrr_sh_examples as (A & B & _ & _ & C & _). exact (conj A (conj B C)). Qed.
 
 (* ---------------------------------------------------------------------------------------
    2. The error funnel (hand model of _getMsg / _getNextRecordFromSocket / _sendError /
